@@ -14,6 +14,14 @@ import (
 func NewQuerier(k Keeper) sdk.Querier {
 	return func(ctx sdk.Ctx, path []string, req abci.RequestQuery) (res []byte, err sdk.Error) {
 		switch path[0] {
+		case types.QueryRelay, types.QueryDispatch, types.QueryChallenge:
+			// these three are services of the node, not reads of its history: the query context
+			// carries the height the client asked for, and every tolerance is measured against it
+			if sdk.IsPastHeightQueryCtx(ctx) {
+				return nil, sdk.ErrInternal("relays, dispatches and challenges are served on the latest state only")
+			}
+		}
+		switch path[0] {
 		// query pocket supported supported non-native blockchains
 		case types.QuerySupportedBlockchains:
 			return querySupportedBlockchains(ctx, req, k)
